@@ -1,0 +1,73 @@
+//go:build verif
+
+package interp
+
+import (
+	"fmt"
+	"sort"
+)
+
+// Verification hook for the registration of init functions (property C15).
+// Compiled only with -tags verif; nothing here changes the behaviour of the
+// interpreter.
+
+// VerifInitNodes compiles src (a complete source file) in this interpreter
+// without executing it and returns
+//   - regs: the list of nodes Execute will run after the global variables
+//     (Program.init: the init nodes collected by cfg, then main if CompileAST
+//     added it), each as "name@k" for a function or "T.name@k" for a method,
+//     k being the ordinal of the declaration among the function declarations
+//     of the file; "main" for the main function;
+//   - syms: the names of the function symbols of the package scope, sorted.
+func (interp *Interpreter) VerifInitNodes(src string) (regs, syms []string, err error) {
+	p, err := interp.compileSrc(src, "", false)
+	if err != nil {
+		return nil, nil, err
+	}
+	ord := map[*node]int{}
+	k := 0
+	for _, c := range p.root.child {
+		if c.kind == funcDecl {
+			ord[c] = k
+			k++
+		}
+	}
+	sc := interp.scopes[p.pkgName]
+	var mainNode *node
+	if sc != nil {
+		if m := sc.sym[mainID]; m != nil {
+			mainNode = m.node
+		}
+		for name, s := range sc.sym {
+			if s.kind == funcSym {
+				syms = append(syms, name)
+			}
+		}
+	}
+	sort.Strings(syms)
+	for _, n := range p.init {
+		if n == mainNode && n != nil {
+			regs = append(regs, "main")
+			continue
+		}
+		if n == nil || n.kind != funcDecl || len(n.child) < 2 {
+			regs = append(regs, "?")
+			continue
+		}
+		name := n.child[1].ident
+		if len(n.child[0].child) > 0 {
+			rtn := n.child[0].child[0].lastChild()
+			t := rtn.ident
+			if t == "" && len(rtn.child) > 0 {
+				t = rtn.child[0].ident
+			}
+			name = t + "." + name
+		}
+		o, ok := ord[n]
+		if !ok {
+			o = -1
+		}
+		regs = append(regs, fmt.Sprintf("%s@%d", name, o))
+	}
+	return regs, syms, nil
+}
